@@ -163,6 +163,22 @@ func (s *session) peer(step int, k string, t int, glue bool) {
 		default:
 			b = BuildFrame(opClose, closePayload(1000, ""), nil) // fragmented Close
 		}
+	case "fragclosecont", "fragpingcont":
+		// a fragmented message with a control frame between its fragments, arriving at once: an empty first
+		// fragment (FIN = 0), a Close (or a Ping), and the final continuation frame that carries the payload
+		b = BuildFrame(opText, nil, nil)
+		s.log.Peer("frag", t, 0)
+		if k == "fragclosecont" {
+			b = append(b, BuildFrame(0x80|opClose, closePayload(1000, ""), nil)...)
+			s.log.Peer("closeValid", t, 1000)
+		} else {
+			b = append(b, BuildFrame(0x80|opPing, Payload(t, plen(t)), nil)...)
+			s.log.Peer("ping", t, 0)
+		}
+		b = append(b, BuildFrame(0x80|opCont, Payload(t, plen(t)), nil)...)
+		s.log.Peer("cont", t, 0)
+		s.feed(rdItem{data: b, glue: glue})
+		return
 	case "eof":
 		s.log.Peer(k, t, 0)
 		s.feed(rdItem{eof: true})
@@ -214,7 +230,14 @@ func (s *session) gotFrame(id int, f websocket.Frame, err error) {
 		s.gotControl(id, f.Opcode(), f.Payload())
 		return
 	}
-	s.log.Got(id, "data", Token(f.Payload()), 0)
+	switch {
+	case f.Opcode() == websocket.OpcodeContinuation:
+		s.log.Got(id, "cont", Token(f.Payload()), 0)
+	case !f.IsFIN():
+		s.log.Got(id, "frag", Token(f.Payload()), 0)
+	default:
+		s.log.Got(id, "data", Token(f.Payload()), 0)
+	}
 }
 
 var closeReasons = map[int]string{1000: "", 1001: "going away", 4000: "app"}
